@@ -69,28 +69,28 @@ theorem nVal_le (l : List St) (i j : Nat) (hi : i < l.length) (hj : j < l.length
 
 
 /-! ### the invariant -/
-def badPol (su : Setup) (b p : Nat) : Pol := if p = b then { polOf su p with hash := 43 } else polOf su p
+def badPol (su : Setup) (bp : Pol) (b p : Nat) : Pol := if p = b then bp else polOf su p
 
-def okCmd (su : Setup) (b : Nat) (x : Nat × Cmd) : Prop :=
+def okCmd (su : Setup) (bp : Pol) (b : Nat) (x : Nat × Cmd) : Prop :=
   match x with
-  | (p, .schedule pol) => p < su.n ∧ pol = badPol su b p
+  | (p, .schedule pol) => p < su.n ∧ pol = badPol su bp b p
   | (p, .validate r) => p < su.n ∧ p ≠ su.leader ∧ r = ⟨42, su.leader⟩
   | (p, .leaderValidated false) => p = su.leader
   | _ => False
 
-structure ActorOk (su : Setup) (b p : Nat) (a : St) : Prop where
+structure ActorOk (su : Setup) (bp : Pol) (b p : Nat) (a : St) : Prop where
   kind : a.kind = .init ∨ a.kind = .awaitingValidation ∨ a.kind = .validateRequested ∨ a.kind = .validated
   lead : p = su.leader → a.kind = .init
   bad : p = b → a.kind ≠ .validated
-  pol : a.kind = .awaitingValidation → a.pol = some (badPol su b p)
+  pol : a.kind = .awaitingValidation → a.pol = some (badPol su bp b p)
   vreq : a.kind = .validateRequested → a.vreq = some ⟨42, su.leader⟩
   permit : a.permit = false
 
-structure Inv (su : Setup) (b : Nat) (net : Net) : Prop where
+structure Inv (su : Setup) (bp : Pol) (b : Nat) (net : Net) : Prop where
   alen : net.actors.length = su.n
   blen : net.busy.length = su.n
-  fl : ∀ x ∈ net.flight, okCmd su b x
-  act : ∀ p, p < su.n → ActorOk su b p (net.actors.getD p {})
+  fl : ∀ x ∈ net.flight, okCmd su bp b x
+  act : ∀ p, p < su.n → ActorOk su bp b p (net.actors.getD p {})
   exec : ∀ x ∈ net.executing, x = false
   outs : ∀ x ∈ net.outputs, x = 0
   nofail : net.fails = 0
@@ -101,10 +101,14 @@ structure Inv (su : Setup) (b : Nat) (net : Net) : Prop where
   phase1 : (net.actors.getD su.leader {}).pol ≠ none →
     net.waitVal + nVal net.actors = su.n - 1 ∧ (net.busy.getD su.leader false = true ∨ (net.actors.getD su.leader {}).stopped = true)
 
-structure WF (su : Setup) (b : Nat) : Prop where
+structure WF (su : Setup) (bp : Pol) (b : Nat) : Prop where
   hl : su.leader < su.n
   hb : b < su.n
   hne : b ≠ su.leader
+  bwt : bp.wellTyped = true
+  bpar : bp.party = b
+  bnl : bp.leader ≠ b
+  bmis : bp.leader ≠ su.leader ∨ bp.hash ≠ 42
 
 /-! ### the actor's step on the three commands that can be in flight -/
 section steps
@@ -130,6 +134,11 @@ theorem step_sched_vr_hash (hns : a.stopped = false) (hk : a.kind = .validateReq
     step Cfg.current a (.schedule pol) = ({ a with stopped := true, permit := false }, [.reply "validate" false "ProgramHashMismatch", .replyDropped "schedule", .stopActor]) := by
   simp [step, hns, hk, hw, hpl, hr, h1, h2, stopWith, hpm, Cfg.current, Cfg.repaired]
 
+theorem step_sched_vr_leader (hns : a.stopped = false) (hk : a.kind = .validateRequested) (hw : pol.wellTyped = true) (hpl : pol.party ≠ pol.leader)
+    (r : VReq) (hr : a.vreq = some r) (h1 : r.leader ≠ pol.leader) (hpm : a.permit = false) :
+    step Cfg.current a (.schedule pol) = ({ a with stopped := true, permit := false }, [.reply "validate" false "LeaderMismatch", .reply "schedule" false "LeaderMismatch", .stopActor]) := by
+  simp [step, hns, hk, hw, hpl, hr, h1, stopWith, hpm, Cfg.current, Cfg.repaired]
+
 theorem step_sched_refused (hns : a.stopped = false) (hk : a.kind = .awaitingValidation ∨ a.kind = .validated) (hw : pol.wellTyped = true) (hpl : pol.party ≠ pol.leader) :
     step Cfg.current a (.schedule pol) = (a, [.reply "schedule" false "InvalidStateFollower"]) := by
   rcases hk with hk | hk <;> simp [step, hns, hk, hw, hpl, Cfg.current, Cfg.repaired]
@@ -147,6 +156,11 @@ theorem step_val_aw_hash (hns : a.stopped = false) (hk : a.kind = .awaitingValid
     (h1 : r.leader = pol.leader) (h2 : r.hash ≠ pol.hash) (hpm : a.permit = false) :
     step Cfg.current a (.validate r) = ({ a with stopped := true, permit := false }, [.reply "validate" false "ProgramHashMismatch", .replyDropped "schedule", .stopActor]) := by
   simp [step, hns, hk, hp, h1, h2, stopWith, hpm]
+
+theorem step_val_aw_leader (hns : a.stopped = false) (hk : a.kind = .awaitingValidation) (r : VReq) (hp : a.pol = some pol)
+    (h1 : r.leader ≠ pol.leader) (hpm : a.permit = false) :
+    step Cfg.current a (.validate r) = ({ a with stopped := true, permit := false }, [.reply "validate" false "LeaderMismatch", .replyDropped "schedule", .stopActor]) := by
+  simp [step, hns, hk, hp, h1, stopWith, hpm]
 
 theorem step_val_refused (hns : a.stopped = false) (hk : a.kind = .validateRequested ∨ a.kind = .validated) (r : VReq) :
     step Cfg.current a (.validate r) = (a, [.reply "validate" false "InvalidState"]) := by
@@ -166,24 +180,24 @@ theorem getD_set_ne (l : List St) (p q : Nat) (a : St) (h : p ≠ q) : (l.set p 
 theorem getD_eq_getElem (l : List St) (i : Nat) (h : i < l.length) : l.getD i {} = l[i] := by
   simp [List.getD_eq_getElem?_getD, List.getElem?_eq_getElem h]
 
-theorem act_set {su : Setup} {b : Nat} {l : List St} (hl : l.length = su.n) (h : ∀ q, q < su.n → ActorOk su b q (l.getD q {}))
-    (p : Nat) (hp : p < su.n) (s' : St) (hs : ActorOk su b p s') : ∀ q, q < su.n → ActorOk su b q ((l.set p s').getD q {}) := by
+theorem act_set {su : Setup} {bp : Pol} {b : Nat} {l : List St} (hl : l.length = su.n) (h : ∀ q, q < su.n → ActorOk su bp b q (l.getD q {}))
+    (p : Nat) (hp : p < su.n) (s' : St) (hs : ActorOk su bp b p s') : ∀ q, q < su.n → ActorOk su bp b q ((l.set p s').getD q {}) := by
   intro q hq
   by_cases hqp : p = q
   · subst hqp; rw [getD_set_self _ _ _ (by omega)]; exact hs
   · rw [getD_set_ne _ _ _ _ hqp]; exact h q hq
 
 /-- the actor's state changes without an `Ok` reply to validate, the leader keeps its phase. -/
-theorem Inv_quiet {su : Setup} {b : Nat} {net : Net} (hI : Inv su b net) (p : Nat) (hp : p < su.n) (s' : St) (t : Net)
+theorem Inv_quiet {su : Setup} {bp : Pol} {b : Nat} {net : Net} (hI : Inv su bp b net) (p : Nat) (hp : p < su.n) (s' : St) (t : Net)
     (hA : t.actors = net.actors.set p s')
-    (hs : ActorOk su b p s')
+    (hs : ActorOk su bp b p s')
     (hv : isVal s' = isVal (net.actors.getD p {}))
     (hpol : p = su.leader → s'.pol = (net.actors.getD p {}).pol ∧ ((net.actors.getD p {}).stopped = true → s'.stopped = true))
     (hB : t.busy = net.busy ∨ (t.busy = net.busy.set su.leader false ∧ p = su.leader ∧ s'.stopped = true))
     (hF : ∀ x ∈ t.flight, x ∈ net.flight ∨ (x = (su.leader, .leaderValidated false) ∧ (net.actors.getD su.leader {}).pol ≠ none))
     (hK0 : (net.actors.getD su.leader {}).pol = none → s'.kind = .init ∨ s'.kind = .awaitingValidation)
     (hW : t.waitVal = net.waitVal) (hE : t.executing = net.executing) (hO : t.outputs = net.outputs) (hfa : t.fails = net.fails)
-    (hS : t.schedOk = net.schedOk) : Inv su b t := by
+    (hS : t.schedOk = net.schedOk) : Inv su bp b t := by
   have hpl : p < net.actors.length := by rw [hI.alen]; exact hp
   have hlead : ((net.actors.set p s').getD su.leader {}).pol = (net.actors.getD su.leader {}).pol := by
     by_cases h : p = su.leader
@@ -232,7 +246,7 @@ theorem Inv_quiet {su : Setup} {b : Nat} {net : Net} (hI : Inv su b net) (p : Na
       · exact absurd hh h
 
 /-- a follower other than `b` is about to answer `Ok` to validate: at least two replies are still outstanding (its own and `b`'s). -/
-theorem waitVal_ge_two {su : Setup} {b : Nat} {net : Net} (hwf : WF su b) (hI : Inv su b net) (p : Nat) (hp : p < su.n)
+theorem waitVal_ge_two {su : Setup} {bp : Pol} {b : Nat} {net : Net} (hwf : WF su bp b) (hI : Inv su bp b net) (p : Nat) (hp : p < su.n)
     (hpl : p ≠ su.leader) (hpb : p ≠ b) (hold : (net.actors.getD p {}).kind ≠ .validated)
     (hph : (net.actors.getD su.leader {}).pol ≠ none) : 2 ≤ net.waitVal := by
   have hlen : p < net.actors.length := by rw [hI.alen]; exact hp
@@ -253,14 +267,14 @@ theorem waitVal_ge_two {su : Setup} {b : Nat} {net : Net} (hwf : WF su b) (hI : 
   simp [hI.alen] at hbound e
   omega
 
-theorem Inv_okreply {su : Setup} {b : Nat} {net : Net} (hwf : WF su b) (hI : Inv su b net) (p : Nat) (hp : p < su.n)
+theorem Inv_okreply {su : Setup} {bp : Pol} {b : Nat} {net : Net} (hwf : WF su bp b) (hI : Inv su bp b net) (p : Nat) (hp : p < su.n)
     (hpl : p ≠ su.leader) (hpb : p ≠ b) (s' : St) (t : Net)
-    (hA : t.actors = net.actors.set p s') (hs : ActorOk su b p s') (hv : s'.kind = .validated)
+    (hA : t.actors = net.actors.set p s') (hs : ActorOk su bp b p s') (hv : s'.kind = .validated)
     (hold : (net.actors.getD p {}).kind ≠ .validated)
     (hph : (net.actors.getD su.leader {}).pol ≠ none)
     (hB : t.busy = net.busy) (hW : t.waitVal = net.waitVal - 1) (hF : ∀ x ∈ t.flight, x ∈ net.flight)
     (hE : t.executing = net.executing) (hO : t.outputs = net.outputs) (hfa : t.fails = net.fails)
-    (hS : ∃ v, t.schedOk = net.schedOk.set p v) : Inv su b t := by
+    (hS : ∃ v, t.schedOk = net.schedOk.set p v) : Inv su bp b t := by
   have hlen : p < net.actors.length := by rw [hI.alen]; exact hp
   have hw2 := waitVal_ge_two hwf hI p hp hpl hpb hold hph
   have hlead : (net.actors.set p s').getD su.leader {} = net.actors.getD su.leader {} := getD_set_ne _ _ _ _ hpl
@@ -289,13 +303,13 @@ theorem Inv_okreply {su : Setup} {b : Nat} {net : Net} (hwf : WF su b) (hI : Inv
     refine ⟨by rw [hW, hnv]; omega, by rw [hB]; exact d1⟩
 
 /-- the leader's own schedule call is delivered: validate requests go out to everybody else. -/
-theorem Inv_leader {su : Setup} {b : Nat} {net : Net} (hwf : WF su b) (hI : Inv su b net) (s' : St) (t : Net)
+theorem Inv_leader {su : Setup} {bp : Pol} {b : Nat} {net : Net} (hwf : WF su bp b) (hI : Inv su bp b net) (s' : St) (t : Net)
     (h0 : (net.actors.getD su.leader {}).pol = none)
-    (hA : t.actors = net.actors.set su.leader s') (hs : ActorOk su b su.leader s') (hpol : s'.pol ≠ none)
+    (hA : t.actors = net.actors.set su.leader s') (hs : ActorOk su bp b su.leader s') (hpol : s'.pol ≠ none)
     (hB : t.busy = net.busy.set su.leader true) (hW : t.waitVal = su.n - 1)
     (hF : ∀ x ∈ t.flight, x ∈ net.flight ∨ ∃ q, q < su.n ∧ q ≠ su.leader ∧ x = (q, .validate ⟨42, su.leader⟩))
     (hE : t.executing = net.executing) (hO : t.outputs = net.outputs) (hfa : t.fails = net.fails)
-    (hS : t.schedOk = net.schedOk) : Inv su b t := by
+    (hS : t.schedOk = net.schedOk) : Inv su bp b t := by
   have hlen : su.leader < net.actors.length := by rw [hI.alen]; exact hwf.hl
   obtain ⟨w0, f0, k0⟩ := hI.phase0 h0
   have hz : nVal (net.actors.set su.leader s') = 0 := by
@@ -328,15 +342,24 @@ theorem Inv_leader {su : Setup} {b : Nat} {net : Net} (hwf : WF su b) (hI : Inv 
     refine ⟨by rw [hW, hz]; rfl, ?_⟩
     left; rw [hB]; simp [List.getD_eq_getElem?_getD, hI.blen, hwf.hl]
 
-theorem badPol_wt (su : Setup) (b p : Nat) : (badPol su b p).wellTyped = true := by unfold badPol polOf; split <;> rfl
-theorem badPol_party (su : Setup) (b p : Nat) : (badPol su b p).party = p := by unfold badPol polOf; split <;> rfl
-theorem badPol_leader (su : Setup) (b p : Nat) : (badPol su b p).leader = su.leader := by unfold badPol polOf; split <;> rfl
-theorem badPol_hash (su : Setup) (b p : Nat) : (badPol su b p).hash = if p = b then 43 else 42 := by unfold badPol polOf; split <;> rfl
+theorem badPol_good (su : Setup) (bp : Pol) (b p : Nat) (h : p ≠ b) : badPol su bp b p = polOf su p := if_neg h
+theorem badPol_bad (su : Setup) (bp : Pol) (b : Nat) : badPol su bp b b = bp := if_pos rfl
+theorem badPol_wt {su : Setup} {bp : Pol} {b : Nat} (hwf : WF su bp b) (p : Nat) : (badPol su bp b p).wellTyped = true := by
+  unfold badPol; split
+  · exact hwf.bwt
+  · rfl
+theorem badPol_follower {su : Setup} {bp : Pol} {b : Nat} (hwf : WF su bp b) (p : Nat) (hpl : p ≠ su.leader) :
+    (badPol su bp b p).party ≠ (badPol su bp b p).leader := by
+  unfold badPol; split
+  · rename_i h; subst h; rw [hwf.bpar]; exact fun hh => hwf.bnl hh.symm
+  · exact hpl
+theorem badPol_leader_good (su : Setup) (bp : Pol) (b p : Nat) (h : p ≠ b) : (badPol su bp b p).leader = su.leader := by rw [badPol_good _ _ _ _ h]; rfl
+theorem badPol_hash_good (su : Setup) (bp : Pol) (b p : Nat) (h : p ≠ b) : (badPol su bp b p).hash = 42 := by rw [badPol_good _ _ _ _ h]; rfl
 
 theorem mem_eraseIdx_sub {l : List (Nat × Cmd)} {k : Nat} : ∀ x ∈ l.eraseIdx k, x ∈ l := fun _ hx => List.mem_of_mem_eraseIdx hx
 
-theorem deliver_inv (su : Setup) (b : Nat) (hwf : WF su b) (net t : Net) (k : Nat) (hI : Inv su b net)
-    (h : deliver Cfg.current su net k = some t) : Inv su b t := by
+theorem deliver_inv (su : Setup) (bp : Pol) (b : Nat) (hwf : WF su bp b) (net t : Net) (k : Nat) (hI : Inv su bp b net)
+    (h : deliver Cfg.current su net k = some t) : Inv su bp b t := by
   unfold deliver at h
   split at h
   · cases h
@@ -363,7 +386,7 @@ theorem deliver_inv (su : Setup) (b : Nat) (hwf : WF su b) (net t : Net) (k : Na
           · subst hpl
             have hki := ha.lead rfl
             by_cases h0 : (net.actors.getD su.leader {}).pol = none
-            · rw [step_sched_leader _ _ hns hki (badPol_wt ..) (by rw [badPol_party, badPol_leader])] at h
+            · rw [step_sched_leader _ _ hns hki (badPol_wt hwf _) (by rw [badPol_good _ _ _ _ (Ne.symm hwf.hne)]; rfl)] at h
               simp [applyEff] at h
               subst h
               refine Inv_leader hwf hI _ _ h0 rfl ?_ (by simp) rfl rfl ?_ rfl rfl rfl rfl
@@ -379,17 +402,17 @@ theorem deliver_inv (su : Setup) (b : Nat) (hwf : WF su b) (net t : Net) (k : Na
               rcases (hI.phase1 h0).2 with hb | hs
               · exact hbusy ⟨hb, rfl⟩
               · rw [hs] at hns; cases hns
-          · have hpp : (badPol su b p).party ≠ (badPol su b p).leader := by rw [badPol_party, badPol_leader]; exact hpl
+          · have hpp := badPol_follower hwf p hpl
             rcases ha.kind with hki | hki | hki | hki
             · -- Init: the policy is stored, the reply is kept
-              rw [step_sched_init _ _ hns hki (badPol_wt ..) hpp] at h
+              rw [step_sched_init _ _ hns hki (badPol_wt hwf _) hpp] at h
               simp at h
               subst h
               refine Inv_quiet hI p hp _ _ rfl ?_ (by simp only [isVal, hki]; decide) (fun hh => absurd hh hpl) (.inl rfl)
                 (fun x hx => .inl (mem_eraseIdx_sub x hx)) (fun _ => .inr rfl) rfl rfl rfl rfl rfl
               exact ⟨.inr (.inl rfl), fun hh => absurd hh hpl, fun _ => by simp, fun _ => rfl, fun hh => by simp at hh,
                 by simp [initChannel, ha.permit]⟩
-            · rw [step_sched_refused _ _ hns (.inl hki) (badPol_wt ..) hpp] at h
+            · rw [step_sched_refused _ _ hns (.inl hki) (badPol_wt hwf _) hpp] at h
               simp [applyEff] at h
               subst h
               exact Inv_quiet hI p hp (net.actors.getD p {}) _ rfl ha rfl (fun _ => ⟨rfl, id⟩) (.inl rfl)
@@ -399,18 +422,36 @@ theorem deliver_inv (su : Setup) (b : Nat) (hwf : WF su b) (net t : Net) (k : Na
               have hph : (net.actors.getD su.leader {}).pol ≠ none := by
                 intro h0; rcases hK0 h0 with hh | hh <;> rw [hki] at hh <;> cases hh
               by_cases hpb : p = b
-              · rw [step_sched_vr_hash _ _ hns hki (badPol_wt ..) hpp _ hvr (by rw [badPol_leader]) (by rw [badPol_hash]; simp [hpb]) ha.permit] at h
-                simp [applyEff] at h
-                subst h
-                refine Inv_quiet hI p hp _ _ rfl ?_ rfl (fun hh => absurd hh hpl) (.inl rfl) ?_ (fun h0 => absurd h0 hph) rfl rfl rfl rfl rfl
-                · exact ⟨.inr (.inr (.inl hki)), fun hh => absurd hh hpl, fun _ => by simp [hki], fun hh => by simp [hki] at hh,
-                    fun _ => hvr, rfl⟩
-                · intro x hx
-                  rw [mem_insertSorted] at hx
-                  rcases hx with rfl | hx
-                  · exact .inr ⟨rfl, hph⟩
-                  · exact .inl (mem_eraseIdx_sub x hx)
-              · rw [step_sched_vr_ok _ _ hns hki (badPol_wt ..) hpp _ hvr (by rw [badPol_leader]) (by rw [badPol_hash]; simp [hpb])] at h
+              · subst hpb
+                have hq : ∀ t' : Net, (∀ x ∈ t'.flight, x ∈ insertSorted (su.leader, Cmd.leaderValidated false) (net.flight.eraseIdx k)) →
+                    t'.actors = net.actors.set p { net.actors.getD p {} with stopped := true, permit := false } → t'.busy = net.busy →
+                    t'.waitVal = net.waitVal → t'.executing = net.executing → t'.outputs = net.outputs → t'.fails = net.fails →
+                    t'.schedOk = net.schedOk → Inv su bp p t' := by
+                  intro t' hF hA hB hW hE hO hfa hS
+                  refine Inv_quiet hI p hp _ _ hA ?_ rfl (fun hh => absurd hh hpl) (.inl hB) ?_ (fun h0 => absurd h0 hph) hW hE hO hfa hS
+                  · exact ⟨.inr (.inr (.inl hki)), fun hh => absurd hh hpl, fun _ => by simp [hki], fun hh => by simp [hki] at hh,
+                      fun _ => hvr, rfl⟩
+                  · intro x hx
+                    have hx := hF x hx
+                    rw [mem_insertSorted] at hx
+                    rcases hx with rfl | hx
+                    · exact .inr ⟨rfl, hph⟩
+                    · exact .inl (mem_eraseIdx_sub x hx)
+                rw [badPol_bad] at h hpp
+                by_cases hL : su.leader = bp.leader
+                · have hh : (42 : Nat) ≠ bp.hash := by
+                    rcases hwf.bmis with hm | hm
+                    · exact absurd hL.symm hm
+                    · exact fun e => hm e.symm
+                  rw [step_sched_vr_hash _ _ hns hki hwf.bwt hpp _ hvr hL hh ha.permit] at h
+                  simp [applyEff] at h
+                  subst h
+                  exact hq _ (fun _ hx => hx) rfl rfl rfl rfl rfl rfl rfl
+                · rw [step_sched_vr_leader _ _ hns hki hwf.bwt hpp _ hvr hL ha.permit] at h
+                  simp [applyEff] at h
+                  subst h
+                  exact hq _ (fun _ hx => hx) rfl rfl rfl rfl rfl rfl rfl
+              · rw [step_sched_vr_ok _ _ hns hki (badPol_wt hwf _) hpp _ hvr (by rw [badPol_leader_good _ _ _ _ hpb]) (by rw [badPol_hash_good _ _ _ _ hpb])] at h
                 have hw2 := waitVal_ge_two hwf hI p hp hpl hpb (by rw [hki]; simp) hph
                 have hne1 : net.waitVal ≠ 1 := by omega
                 simp [applyEff, hne1] at h
@@ -419,7 +460,7 @@ theorem deliver_inv (su : Setup) (b : Nat) (hwf : WF su b) (net t : Net) (k : Na
                   (fun x hx => mem_eraseIdx_sub x hx) rfl rfl rfl ⟨_, rfl⟩
                 exact ⟨.inr (.inr (.inr rfl)), fun hh => absurd hh hpl, fun hh => absurd hh hpb, fun hh => by simp at hh,
                   fun hh => by simp at hh, by simp [initChannel, ha.permit]⟩
-            · rw [step_sched_refused _ _ hns (.inr hki) (badPol_wt ..) hpp] at h
+            · rw [step_sched_refused _ _ hns (.inr hki) (badPol_wt hwf _) hpp] at h
               simp [applyEff] at h
               subst h
               exact Inv_quiet hI p hp (net.actors.getD p {}) _ rfl ha rfl (fun _ => ⟨rfl, id⟩) (.inl rfl)
@@ -452,12 +493,24 @@ theorem deliver_inv (su : Setup) (b : Nat) (hwf : WF su b) (net t : Net) (k : Na
             exact ⟨.inr (.inr (.inl rfl)), fun hh => absurd hh hpl, fun _ => by simp, fun hh => by simp at hh, fun _ => rfl, ha.permit⟩
           · have hpo := ha.pol hki
             by_cases hpb : p = b
-            · rw [step_val_aw_hash _ _ hns hki _ hpo (by rw [badPol_leader]) (by rw [badPol_hash]; simp [hpb]) ha.permit] at h
-              simp [applyEff] at h
-              subst h
-              refine Inv_quiet hI p hp _ _ rfl ?_ rfl (fun hh => absurd hh hpl) (.inl rfl) hF1 (fun h0 => absurd h0 hph) rfl rfl rfl rfl rfl
-              exact ⟨.inr (.inl hki), fun hh => absurd hh hpl, fun _ => by simp [hki], fun _ => hpo, fun hh => by simp [hki] at hh, rfl⟩
-            · rw [step_val_aw_ok _ _ hns hki _ hpo (by rw [badPol_leader]) (by rw [badPol_hash]; simp [hpb])] at h
+            · subst hpb
+              rw [badPol_bad] at hpo
+              have hs' : ActorOk su bp p p ({ net.actors.getD p {} with stopped := true, permit := false } : St) :=
+                ⟨.inr (.inl hki), fun hh => absurd hh hpl, fun _ => by simp [hki], fun _ => by rw [badPol_bad]; exact hpo, fun hh => by simp [hki] at hh, rfl⟩
+              by_cases hL : su.leader = bp.leader
+              · have hh : (42 : Nat) ≠ bp.hash := by
+                  rcases hwf.bmis with hm | hm
+                  · exact absurd hL.symm hm
+                  · exact fun e => hm e.symm
+                rw [step_val_aw_hash _ _ hns hki _ hpo hL hh ha.permit] at h
+                simp [applyEff] at h
+                subst h
+                exact Inv_quiet hI p hp _ _ rfl hs' rfl (fun hh => absurd hh hpl) (.inl rfl) hF1 (fun h0 => absurd h0 hph) rfl rfl rfl rfl rfl
+              · rw [step_val_aw_leader _ _ hns hki _ hpo hL ha.permit] at h
+                simp [applyEff] at h
+                subst h
+                exact Inv_quiet hI p hp _ _ rfl hs' rfl (fun hh => absurd hh hpl) (.inl rfl) hF1 (fun h0 => absurd h0 hph) rfl rfl rfl rfl rfl
+            · rw [step_val_aw_ok _ _ hns hki _ hpo (by rw [badPol_leader_good _ _ _ _ hpb]) (by rw [badPol_hash_good _ _ _ _ hpb])] at h
               have hw2 := waitVal_ge_two hwf hI p hp hpl hpb (by rw [hki]; simp) hph
               have hne1 : net.waitVal ≠ 1 := by omega
               simp [applyEff, hne1] at h
@@ -498,21 +551,35 @@ theorem deliver_inv (su : Setup) (b : Nat) (hwf : WF su b) (net t : Net) (k : Na
 theorem failAt_none (su : Setup) (net : Net) (k : Nat) (h : net.fails = 0) : failAt Cfg.current su net k = none := by
   simp [failAt, h]
 
-theorem successors_inv (su : Setup) (b : Nat) (hwf : WF su b) (net t : Net) (hI : Inv su b net)
-    (h : t ∈ successors Cfg.current su net) : Inv su b t := by
+theorem successors_inv (su : Setup) (bp : Pol) (b : Nat) (hwf : WF su bp b) (net t : Net) (hI : Inv su bp b net)
+    (h : t ∈ successors Cfg.current su net) : Inv su bp b t := by
   unfold successors at h
   rw [List.mem_eraseDups, List.mem_append, List.mem_filterMap, List.mem_filterMap] at h
   rcases h with ⟨k, _, hk⟩ | ⟨k, _, hk⟩
-  · exact deliver_inv su b hwf net t k hI hk
+  · exact deliver_inv su bp b hwf net t k hI hk
   · rw [failAt_none su net k hI.nofail] at hk; cases hk
 
-theorem initNetBad_inv (su : Setup) (b : Nat) : Inv su b (initNetBad su b) := by
-  have hfl : (initNetBad su b).flight = (List.range su.n).foldl (fun acc q => insertSorted ((fun q => (q, Cmd.schedule (badPol su b q))) q) acc) [] := rfl
-  have hact : ∀ p, (initNetBad su b).actors.getD p {} = {} := by
+/-- party `b` (a follower) schedules the policy `bp`; everybody else as in `initNet`. -/
+def initNetBadPol (su : Setup) (bp : Pol) (b : Nat) : Net :=
+  { initNetF su 0 with flight := (List.range su.n).foldl (fun acc p => insertSorted (p, .schedule (if p = b then bp else polOf su p)) acc) [] }
+
+theorem initNetBad_eq (su : Setup) (b : Nat) : initNetBad su b = initNetBadPol su { polOf su b with hash := 43 } b := by
+  have hf : (fun (acc : List (Nat × Cmd)) p => insertSorted (p, Cmd.schedule (if p = b then { polOf su p with hash := 43 } else polOf su p)) acc)
+      = (fun acc p => insertSorted (p, Cmd.schedule (if p = b then { polOf su b with hash := 43 } else polOf su p)) acc) := by
+    funext acc p
+    by_cases h : p = b
+    · subst h; rfl
+    · simp [h]
+  unfold initNetBad initNetBadPol
+  rw [hf]
+
+theorem initNetBad_inv (su : Setup) (bp : Pol) (b : Nat) : Inv su bp b (initNetBadPol su bp b) := by
+  have hfl : (initNetBadPol su bp b).flight = (List.range su.n).foldl (fun acc q => insertSorted ((fun q => (q, Cmd.schedule (badPol su bp b q))) q) acc) [] := rfl
+  have hact : ∀ p, (initNetBadPol su bp b).actors.getD p {} = {} := by
     intro p
     show (List.replicate su.n ({} : St)).getD p {} = {}
     rw [List.getD_eq_getElem?_getD, List.getElem?_replicate]; split <;> rfl
-  have hflm : ∀ x ∈ (initNetBad su b).flight, ∃ q, q < su.n ∧ x = (q, Cmd.schedule (badPol su b q)) := by
+  have hflm : ∀ x ∈ (initNetBadPol su bp b).flight, ∃ q, q < su.n ∧ x = (q, Cmd.schedule (badPol su bp b q)) := by
     intro x hx
     rw [hfl, mem_foldl_insertSorted] at hx
     rcases hx with hx | ⟨q, hq, rfl⟩
@@ -544,22 +611,24 @@ theorem initNetBad_inv (su : Setup) (b : Nat) : Inv su b (initNetBad su b) := by
     · intro p _; rw [hact]; exact .inl rfl
   · intro h; rw [hact] at h; exact absurd rfl h
 
-/-- **C16, any number of parties, any leader, any destinations and constants, every interleaving.**  Follower `b` has scheduled a policy that
-    names a different program.  In every reachable state of the network: no MPC task has been started at any party, no result or
-    error notification has been delivered to any destination (the refusals are error REPLIES to the schedule calls), no state machine
-    is past `Validated`, and neither the leader's nor `b`'s schedule call has been answered `Ok`. -/
-theorem C16_general_mismatch_net (su : Setup) (b : Nat) (hl : su.leader < su.n) (hb : b < su.n) (hne : b ≠ su.leader) (s : Net)
-    (h : Reach (successors Cfg.current su) (initNetBad su b) s) :
+/-- **C16, any number of parties, any leader, any destinations and constants, every interleaving.**  Follower `b` has scheduled a policy `bp`
+    that names a different program or a different leader (a third party, not itself) than the leader's policy.  In every reachable state
+    of the network: no MPC task has been started at any party, no result or error notification has been delivered to any destination (the
+    refusals are error REPLIES to the schedule calls), no state machine is past `Validated`, no `run` command is in flight, and neither the
+    leader's nor `b`'s schedule call has been answered `Ok`. -/
+theorem C16_general_mismatch_net (su : Setup) (bp : Pol) (b : Nat) (hl : su.leader < su.n) (hb : b < su.n) (hne : b ≠ su.leader)
+    (hwt : bp.wellTyped = true) (hpar : bp.party = b) (hnl : bp.leader ≠ b) (hmis : bp.leader ≠ su.leader ∨ bp.hash ≠ 42) (s : Net)
+    (h : Reach (successors Cfg.current su) (initNetBadPol su bp b) s) :
     (∀ x ∈ s.executing, x = false) ∧ (∀ x ∈ s.outputs, x = 0)
     ∧ (∀ p, p < su.n → (s.actors.getD p {}).kind ≠ .running ∧ (s.actors.getD p {}).kind ≠ .executing
         ∧ (s.actors.getD p {}).kind ≠ .sendingConsts ∧ (s.actors.getD p {}).kind ≠ .sendingConstsCompleted)
     ∧ (s.actors.getD b {}).kind ≠ .validated
     ∧ s.schedOk.getD b 0 = 0 ∧ s.schedOk.getD su.leader 0 = 0
     ∧ (∀ x ∈ s.flight, ∀ e, x.2 ≠ .run e) := by
-  have hI : Inv su b s := by
+  have hI : Inv su bp b s := by
     induction h with
-    | init => exact initNetBad_inv su b
-    | step _ ht ih => exact successors_inv su b ⟨hl, hb, hne⟩ _ _ ih ht
+    | init => exact initNetBad_inv su bp b
+    | step _ ht ih => exact successors_inv su bp b ⟨hl, hb, hne, hwt, hpar, hnl, hmis⟩ _ _ ih ht
   refine ⟨hI.exec, hI.outs, ?_, (hI.act b hb).bad rfl, hI.sched.1, hI.sched.2, ?_⟩
   · intro p hp
     rcases (hI.act p hp).kind with h | h | h | h <;> simp [h]
@@ -570,9 +639,18 @@ theorem C16_general_mismatch_net (su : Setup) (b : Nat) (hl : su.leader < su.n) 
     subst he
     simp [okCmd] at this
 
-/-- non-vacuity: the hypotheses are met by a five-party setup, and the network does move (the initial state has successors). -/
-example : (4 : Nat) < 5 ∧ (2 : Nat) < 5 ∧ (2 : Nat) ≠ 4 ∧
+/-- the instance explored exhaustively for two parties in `C16net.lean` (`initNetBad`: another program, hash 43). -/
+theorem C16_general_mismatch_program (su : Setup) (b : Nat) (hl : su.leader < su.n) (hb : b < su.n) (hne : b ≠ su.leader) (s : Net)
+    (h : Reach (successors Cfg.current su) (initNetBad su b) s) :
+    (∀ x ∈ s.executing, x = false) ∧ (∀ x ∈ s.outputs, x = 0) ∧ s.schedOk.getD b 0 = 0 ∧ s.schedOk.getD su.leader 0 = 0 := by
+  rw [initNetBad_eq] at h
+  have := C16_general_mismatch_net su _ b hl hb hne rfl rfl (fun e => hne e.symm) (.inr (by simp)) s h
+  exact ⟨this.1, this.2.1, this.2.2.2.2.1, this.2.2.2.2.2.1⟩
+
+/-- non-vacuity: the hypotheses are met by a five-party setup with a follower that names ANOTHER LEADER (party 0 instead of 4), and the
+    network does move (the initial state has five successors). -/
+example : (4 : Nat) < 5 ∧ (2 : Nat) < 5 ∧ (2 : Nat) ≠ 4 ∧ (0 : Nat) ≠ 2 ∧
     (successors Cfg.current ⟨5, 4, [true, false, true, false, true], [false, true, false, false, true]⟩
-      (initNetBad ⟨5, 4, [true, false, true, false, true], [false, true, false, false, true]⟩ 2)).length = 5 := by decide +kernel
+      (initNetBadPol ⟨5, 4, [true, false, true, false, true], [false, true, false, false, true]⟩ ⟨2, 0, 5, 42, true, true, false, 2⟩ 2)).length = 5 := by decide +kernel
 
 end PolytuneModel.Server
